@@ -59,6 +59,13 @@ func msgBuilder(p *Prog) *builderInfo {
 				bi.set = paramIdx(c.Call.Value)
 			}
 		})
+		if bi.tm < 0 {
+			for i, pa := range f.Params {
+				if typeName(pa.Type()) == "time.Time" {
+					bi.tm = i
+				}
+			}
+		}
 		if bi.seq >= 0 && bi.obs >= 0 && bi.tm >= 0 && bi.set >= 0 {
 			return bi
 		}
